@@ -273,11 +273,25 @@ def run_case(case):
     # the SAME path is rewritten with a different basis set for every case of this worker process (a result that
     # depends on anything but the file content - a cache keyed on the path, say - shows as a mismatch)
     path = os.path.join(os.environ.get("TMPDIR", "/tmp"), "vmon-c18-%d.%s" % (os.getpid(), case["fmt"]))
+    ending = ["as-written", "as-written", "no-final-newline", "as-written", "fragment-without-terminator"][case["i"] % 5]
+    if ending == "no-final-newline":
+        text = text.rstrip("\n")  # the file ends right after END / ****
+    elif ending == "fragment-without-terminator":
+        # the closing END (NWChem) or last **** (Gaussian94) line and the final newline are missing. Such a fragment is not
+        # a well-formed file: the reader may reject it, but if it answers, the answer must be what is written
+        lines_ = text.rstrip("\n").split("\n")
+        if lines_ and lines_[-1].strip() in ("END", "****"):
+            lines_ = lines_[:-1]
+        text = "\n".join(lines_)
+    classes.append("file-end:" + ending)
     try:
         with open(path, "w") as fh:
             fh.write(text)
         parsed = cm.call(parser, path)
         evals += 1
+        if ending == "fragment-without-terminator" and isinstance(parsed, cm.Raised):
+            classes.append("fragment:rejected")
+            return {"evals": evals, "nontrivial": True, "classes": classes, "errs": errs, "violations": viols}
         compare_parsed(parsed, expect, what, viols, header)
         # the caller may do what it likes with the returned data: a second call must again return what the file says
         if isinstance(parsed, dict) and parsed:
